@@ -55,6 +55,20 @@ CLAIMS["C09"] = {
     "design": "DESIGN.md §5 C09, §6.1",
 }
 
+CLAIMS["C15"] = {
+    "text": "MergeSource::poll_next and TaggedSource::poll_next are extracted verbatim from hydro_deploy_integration on every run and checked "
+            "by Kani against a one-poll contract with havoc sources (each poll answers Pending / ended / item arbitrarily), for every cursor "
+            "position and every answer pattern, complete for each n in {1,2,3,4} sources (loop bound n): sources are polled in cyclic order "
+            "from the cursor, at most once each, polling stops at the first item and exactly that item is returned; ended sources and only "
+            "those are removed, survivors keep order and state; Ready(None) iff no source remains; the new cursor designates the survivor "
+            "following the last polled source (the cursor fix-up, which yields 'served within one round'). Per-sender order / no loss / no "
+            "repeat follow because an item is returned in the call that obtained it (no buffering).",
+    "note": "Trusted: Kani+CBMC; n > 4 not covered; the step from the one-poll contract to the whole-stream statement is an induction over "
+            "polls argued in DESIGN.md §5 C15, not machine-checked; real sources are assumed to satisfy the Stream protocol only.",
+    "technique": "contract-based verification: Kani one-call contract on verbatim-extracted functions with havoc callees",
+    "design": "DESIGN.md §5 C15",
+}
+
 NOT_APPLICABLE = {
     "C08": "GHT nodes own std HashMap / hashbrown HashTable at every level; variadic type recursion is outside Verus' subset and CBMC does not get through hashbrown probing (spiked): no contract on these functions can be discharged here.",
     "C18": "Quantifies over programs the compiler accepts; partition_graph works on DfirGraph (slotmaps of syn AST nodes): no contract over that state is within Verus' subset and Kani cannot build a symbolic DfirGraph.",
